@@ -37,7 +37,34 @@ use std::{
     task::{Context, Poll},
 };
 
-use futures::{task::AtomicWaker, Future};
+#[cfg(not(swimos_verif_shuttle))]
+use futures::task::AtomicWaker;
+use futures::Future;
+
+// Verification hook: under `--cfg swimos_verif_shuttle` registering and waking the waker are scheduling
+// points too, so that the scheduler can switch between a check of the flags and the use of the waker.
+#[cfg(swimos_verif_shuttle)]
+use self::verif_waker::AtomicWaker;
+#[cfg(swimos_verif_shuttle)]
+mod verif_waker {
+    use std::{task::Waker, time::Duration};
+
+    #[derive(Debug, Default)]
+    pub struct AtomicWaker(futures::task::AtomicWaker);
+
+    impl AtomicWaker {
+        pub fn register(&self, waker: &Waker) {
+            shuttle::thread::sleep(Duration::ZERO);
+            self.0.register(waker);
+            shuttle::thread::sleep(Duration::ZERO);
+        }
+
+        pub fn wake(&self) {
+            shuttle::thread::sleep(Duration::ZERO);
+            self.0.wake();
+        }
+    }
+}
 use static_assertions::{assert_impl_all, assert_not_impl_any};
 
 #[cfg(test)]
